@@ -102,11 +102,14 @@ def loc_tokens(loc):
 def _dec(i):
     if i == 0:
         return "0"
+    neg = i < 0
+    if neg:
+        i = -i
     s = ""
     while i:
         s = _DIGITS[i % 10] + s
         i //= 10
-    return s
+    return ("-" if neg else "") + s
 
 
 # ----------------------------------------------------------------------------
